@@ -7,6 +7,7 @@ Implementation = edit_rules.py as a subprocess on three families of rulesets:
 each edited with --min_length/--max_length, --terminal_set, --regex, in place and with --copy, some twice;
 model = EditRules.v (Python's re.search supplied as a table)."""
 import hashlib
+import itertools
 import json
 import os
 import random
@@ -133,28 +134,64 @@ class GuesserFailed(Exception):
     pass
 
 
-def guess_lengths(code_rules_dir, name, sc, skip_markov=False):
-    """lengths of all non-Markov guesses per base structure of the (edited) ruleset"""
+def guess_lengths(code_rules_dir, name, sc, skip_markov=False, bounds=None):
+    """lengths of all non-Markov guesses per base structure of the (edited) ruleset: (per, capped, expl); with bounds
+    (mn, mx), the guesses that are too long ONLY through case expansion (R23) are listed in expl instead"""
     try:
-        return _guess_lengths(code_rules_dir, name, sc, skip_markov)
+        return _guess_lengths(code_rules_dir, name, sc, skip_markov, bounds)
     except Exception as e:
         raise GuesserFailed("%s: %s" % (type(e).__name__, e))
 
 
-def _guess_lengths(code_rules_dir, name, sc, skip_markov=False):
+def expansion_explains(g, pt, mn, mx):
+    """The guesses of pre-terminal pt whose excess over the bounds is fully explained by case expansion (R23), by the
+    property's own product of the loaded groups: the same choice of values with the alpha words as stored in the files
+    (no mask applied) is within [mn, mx], and the guess is that choice with str.upper() applied where the mask says U.
+    In that product the only step that can change a length is upper() of a letter whose upper() has more than one
+    character ('ß' -> 'SS'); a value longer than its label, a mask of another length, anything appended: not explained."""
+    choices = []
+    i = 0
+    while i < len(pt):
+        t, ix = pt[i]
+        vals = g.grammar[t][ix]["values"]
+        if t[0] == "A" and i + 1 < len(pt) and pt[i + 1][0][0] == "C":
+            masks = g.grammar[pt[i + 1][0]][pt[i + 1][1]]["values"]
+            choices.append([(w, "".join(c if mc == "L" else c.upper() for c, mc in zip(w, m)))
+                            for w in vals for m in masks if len(m) == len(w) and set(m) <= {"L", "U"}])
+            i += 2
+        else:
+            choices.append([(v, v) for v in vals])
+            i += 1
+    out = {}
+    for combo in itertools.product(*choices):
+        stored = "".join(a for a, _ in combo)
+        if len(stored) >= mn and (not mx or len(stored) <= mx):
+            out.setdefault("".join(b for _, b in combo), stored)
+    return out
+
+
+def _guess_lengths(code_rules_dir, name, sc, skip_markov=False, bounds=None):
     from lib_guesser.pcfg_grammar import PcfgGrammar
     g, _, _ = common.quiet_call(PcfgGrammar, name, os.path.join(code_rules_dir, name), "4.7", None, True, False, False, "Grammar")
     items, _, capped, _ = impl_next.full_stream(g, cap=3000, check_heap=False)
-    per = {}
+    per, expl = {}, {}
     for it in items:
         if skip_markov and any(t == "M" for t, _ in it["pt"]):
             # a trained OMEN grammar: the Markov pre-terminals stand for millions of guesses, and the property excludes them
             continue
         key = "".join(t for t, _ in it["pt"] if t[0] != "C")
         res = collect(g, it["pt"], None)
-        for s in (res[0] if res else []):
+        guesses = res[0] if res else []
+        ok = None
+        for s in guesses:
+            if bounds and bounds[1] and len(s) > bounds[1]:
+                if ok is None:
+                    ok = expansion_explains(g, it["pt"], bounds[0], bounds[1]) if not any(t == "M" for t, _ in it["pt"]) else {}
+                if s in ok:
+                    expl.setdefault(key, []).append((s, ok[s]))
+                    continue
             per.setdefault(key, set()).add(len(s))
-    return per, capped
+    return per, capped, expl
 
 
 TOKS = re.compile(r"[A-Z][0-9]*")
@@ -174,7 +211,7 @@ def label_length(s):
     return total
 
 
-def judge(orig, after_lines, opt, per, replay, step=""):
+def judge(orig, after_lines, opt, per, replay, step="", expl=None):
     """one edit: `orig` -> `after_lines` under `opt`; `per` = lengths of all non-Markov guesses of the edited ruleset"""
     vio = []
     kept = set(a for a, _ in after_lines)
@@ -195,6 +232,14 @@ def judge(orig, after_lines, opt, per, replay, step=""):
                             "what": "kept structure %s yields guesses of length %s outside [%d,%s]" % (s, sorted(bad)[:4], mn, mx or "inf"),
                             "replay": replay})
                 break
+        for s, gs in (expl or {}).items():
+            # too long, and fully explained by upper() of a letter whose upper() has more than one character (R23)
+            g0, stored = gs[0]
+            vio.append({"sig": "C20:length-bound:case-expansion",
+                        "what": "kept structure %s yields the guess %r of length %d outside [%d,%s]: the values as stored (%r, length %d) are within, "
+                                "the capitalisation mask makes it longer (%d such guess(es))" % (s, g0, len(g0), mn, mx or "inf", stored, len(stored), len(gs)),
+                        "replay": replay})
+            break
     toks = TOKS.findall
     st = [x.upper() for x in opt["set"].split(",")] if "set" in opt else None
     rxs = opt["regex"].split(",") if "regex" in opt else []
@@ -277,6 +322,7 @@ def edit_step(E, name, opt, copy, replay, step="", lengths=True, skip_markov=Fal
     rd = os.path.join(E.rules, name)
     before = tree_hash(rd)
     orig = read_lines(os.path.join(rd, "Grammar", "grammar.txt"))
+    gsize = os.path.getsize(os.path.join(rd, "Grammar", "grammar.txt"))
     p = subprocess.run(edit_args(name, opt, copy), cwd=E.code, env=E.env, stdout=subprocess.PIPE, stderr=subprocess.PIPE, timeout=timeout)
     tname = copy or name
     target = os.path.join(E.rules, tname)
@@ -287,7 +333,7 @@ def edit_step(E, name, opt, copy, replay, step="", lengths=True, skip_markov=Fal
         if now != before:
             ch = sorted(k for k in set(now) | set(before) if now.get(k) != before.get(k))
             vio.append({"sig": "C20:copy-touched-source", "what": "--copy changed the source ruleset: %s (Grammar/grammar.txt of the source: %d bytes before)"
-                        % (ch[:3], sum(len(a) + len(b) + 2 for a, b in orig)), "replay": replay})
+                        % (ch[:3], gsize), "replay": replay})
         if os.path.isdir(target):
             if other(tree_hash(target)) != other(before):
                 vio.append({"sig": "C20:other-file-touched", "what": "files other than Grammar/grammar.txt differ in the copy", "replay": replay})
@@ -315,15 +361,15 @@ def edit_step(E, name, opt, copy, replay, step="", lengths=True, skip_markov=Fal
             vio.append({"sig": "C20:unreadable-grammar" + step, "what": "Grammar/grammar.txt after the edit cannot be read as structure<TAB>probability lines: %r" % (e,),
                         "replay": replay})
     if after is not None:
-        per = {}
+        per, expl = {}, {}
         if lengths:
             try:
-                per, _ = guess_lengths(E.rules, tname, E.sc, skip_markov)
+                per, _, expl = guess_lengths(E.rules, tname, E.sc, skip_markov, (opt["min"], opt["max"]) if "min" in opt else None)
             except GuesserFailed as e:
                 # no guess at all can be generated from the edited ruleset
                 vio.append({"sig": "C20:guesser-fails-on-edited-ruleset", "what": "the guesser cannot generate from the %sedited ruleset: %s"
                             % ("twice " if step else "", e), "replay": replay})
-        vio += judge(orig, after, opt, per, replay, step)
+        vio += judge(orig, after, opt, per, replay, step, expl)
     return {"vio": vio, "orig": orig, "after": after, "target": tname, "raised": raised}
 
 
@@ -332,14 +378,19 @@ def edit_step(E, name, opt, copy, replay, step="", lengths=True, skip_markov=Fal
 TRAIN_KINDS = ["word", "wd", "wd", "dw", "wsd", "wsd", "walk", "year", "ctx", "multi", "sym", "digits", "email", "site", "na", "mixed"]
 
 
-def make_training(rng, total):
+# lower-case letters whose upper() has more than one character (known finding R23: a capitalisation mask makes the guess longer)
+EXPANDING = ["\u00df", "\u0149", "\u01f0", "\ufb01", "\ufb02", "\u0390", "\u0587"]      # ß ŉ ǰ ﬁ ﬂ ΐ և
+
+
+def make_training(rng, total, expanding=False):
     """a --prefixcount training list standing for about `total` passwords: a few very frequent ones and many that
     occur 1-3 times, so that the probabilities of the rare base structures are below 1e-4 and the trainer has to write
     them in exponent form - whatever form that is, it is what edit_rules.py is given to read"""
     def pw(kinds):
         for _ in range(50):
             p = trainer_io.gen_password(rng, "utf-8", rng.choice(kinds))
-            if p and p == p.strip() and "\t" not in p and not any(c in p for c in "\r\n\x0b\x0c\x1c\x1d\x1e\x85\u2028\u2029"):
+            if p and p == p.strip() and "\t" not in p and not any(c in p for c in "\r\n\x0b\x0c\x1c\x1d\x1e\x85\u2028\u2029") \
+                    and all(len(c.lower()) == 1 for c in p):
                 return p
         return "password1"
     lines = []
@@ -348,7 +399,15 @@ def make_training(rng, total):
         lines.append([max(1, int(total * f / sum(share))), pw(["wd", "word", "wsd", "year"])])
     for _ in range(rng.randint(14, 30)):
         lines.append([rng.choice([1, 1, 1, 1, 2, 2, 3]), pw(TRAIN_KINDS)])
-    return {"lines": lines, "coverage": rng.choice([0.6, 0.6, 0.5, 0.9]), "ngram": rng.choice([4, 4, 3, 2])}
+    spec = {"lines": lines, "coverage": rng.choice([0.6, 0.6, 0.5, 0.9]), "ngram": rng.choice([4, 4, 3, 2])}
+    if expanding:
+        # a word ending in such a letter, and a word of the same length ending in a capital: the mask L..LU exists for that length
+        x, w, d = rng.choice(EXPANDING), rng.choice(["a", "lov", "pass", "secre"]), rng.choice(["1", "42", "007"])
+        w2 = "".join(rng.choice("bcdfgh") for _ in w)
+        at = rng.randint(len(share), len(lines))
+        lines[at:at] = [[rng.choice([1, 2]), w + x + d], [1, w2 + "Z" + rng.choice(["3", "77"])]]
+        spec["focus"] = len(w) + 1 + len(d)       # the label length of the first of the two
+    return spec
 
 
 def train(E, spec, name):
@@ -365,13 +424,15 @@ def train(E, spec, name):
     return None
 
 
-def trainer_plans(rng, orig, extra):
+def trainer_plans(rng, orig, extra, focus=None):
     """edits of one trained ruleset: [(options, copy?, second options or None)] - the three forms of the tool sequence first"""
     lens = sorted(set(L for L in (label_length(s) for s, _ in orig) if L))
     mid = lens[len(lens) // 2] if lens else 8
     bounds = lambda: rng.choice([(max(1, mid - 2), mid + 2), (mid, 0), (0, mid), (mid, mid), (lens[0] if lens else 1, lens[-1] if lens else 30)])
     sets = ["A,D,M", "A,D,O,K,X,Y,M", "a,d,o,y", "A,D,O,K,Y"]
     plans = []
+    if focus:
+        plans.append(({"min": focus, "max": focus}, True, None))
     mn, mx = bounds()
     plans.append(({"min": mn, "max": mx}, True, None))
     plans.append(({"set": rng.choice(sets)}, True, options(rng)))
@@ -519,13 +580,17 @@ def run(ctx):
         if copy:
             shutil.rmtree(target, ignore_errors=True)
 
+    import time
+    t0 = time.time()
+    secs = dist["seconds"] = {"G": round(t0 - ctx.t0, 1)}
     # ---------------- (T) the real trainer writes the ruleset, edit_rules.py edits it, the real guesser loads it
     trained = []
-    dt = {"trainer_runs": 0, "edits": 0, "lines": 0, "lines_in_exponent_form": 0, "edits_removing_some": 0, "totals": []}
+    dt = {"trainer_runs": 0, "runs_with_case_expanding_letters": 0, "edits": 0, "lines": 0, "lines_in_exponent_form": 0, "edits_removing_some": 0, "totals": []}
     totals = [ctx.rng.randint(14000, 24000), ctx.rng.randint(24000, 40000)] if ctx.tier != "thorough" else \
         [ctx.rng.randint(14000, 60000) for _ in range(7)] + [300000]
     for k, total in enumerate(totals):
-        spec = make_training(ctx.rng, total)
+        spec = make_training(ctx.rng, total, expanding=(k % 4 == 0))
+        focus = spec.pop("focus", None)
         name = "TR%d" % k
         err = train(E, spec, name)
         dt["trainer_runs"] += 1
@@ -541,9 +606,10 @@ def run(ctx):
         trained.append((name, orig0))
         dt["lines"] += len(orig0)
         dt["lines_in_exponent_form"] += sum(1 for _, b in orig0 if "e" in b.lower())
+        dt["runs_with_case_expanding_letters"] += any(len(c.upper()) != 1 for _, p in spec["lines"] for c in p)
         if len(samples) < 5:
             samples.append({"trained_from": spec["lines"][:6], "grammar.txt": ["%s\t%s" % x for x in orig0[:3] + orig0[-3:]]})
-        for j, (opt, with_copy, opt2) in enumerate(trainer_plans(ctx.rng, orig0, ctx.scale(3, 8))):
+        for j, (opt, with_copy, opt2) in enumerate(trainer_plans(ctx.rng, orig0, ctx.scale(3, 8), focus)):
             base = {"train": spec, "options": opt, "copy": with_copy}
             if with_copy:
                 sname, copy = name, "%sc%d" % (name, j)
@@ -571,6 +637,8 @@ def run(ctx):
                 break       # reported above (copy-touched-source); the trained ruleset is no longer what the trainer wrote
         shutil.rmtree(src, ignore_errors=True)
     dist["trainer_stage"] = dt
+    secs["T"] = round(time.time() - t0, 1)
+    t0 = time.time()
 
     # ---------------- (L) large rulesets: grammar.txt and a terminal file of tens of KiB up to more than 1 MiB
     KiB = 1024
@@ -617,6 +685,7 @@ def run(ctx):
                 shutil.rmtree(os.path.join(rules, copy), ignore_errors=True)
         shutil.rmtree(src, ignore_errors=True)
     dist["large_stage"] = dl
+    secs["L"] = round(time.time() - t0, 1)
 
     shards = []
     per = 40
